@@ -34,6 +34,9 @@ def make_cfg(name, seed=0, max_dev=1, checks=("toc_sync", "toc_vs_model", "inmem
     for n in ("/", G, GD, E):
         for s in schemas:
             ops.append(["attach", n, s])
+    # one kept `node.meta` object used twice
+    ops.append(["attachheld", E, schemas[0]])
+    ops.append(["attachheld", G, schemas[1]])
     for n in ("/", G, GD, E):
         for s in schemas[:2]:
             ops.append(["detach", n, s])
